@@ -1298,11 +1298,24 @@ impl Gen {
                 if t == Ty::Unit {
                     Expr::new(Ty::Unit, EK::Ret(k, None))
                 } else {
-                    let v = self.expr(&t, d.min(2), true);
+                    // the payload types of a filtermap are inferred from its accept /
+                    // reject expressions: they must determine their type themselves
+                    let v = self.expr(&t, d.min(2), false);
                     Expr::new(Ty::Unit, EK::Ret(k, Some(Box::new(v))))
                 }
             }
         }
+    }
+
+    /// `accept e` / `reject e` with a self-typed payload
+    fn verdict_stmt(&mut self, kind: RetKind, d: u32) -> Expr {
+        let Ty::Verdict(a, r) = self.cur_ret.clone() else { unreachable!() };
+        let t = if kind == RetKind::Accept { *a } else { *r };
+        self.no_div += 1;
+        let v = self.expr(&t, d.min(2), false);
+        self.no_div -= 1;
+        self.tag(format!("stmt:{}", if kind == RetKind::Accept { "accept" } else { "reject" }));
+        Expr::new(Ty::Unit, EK::Ret(kind, Some(Box::new(v))))
     }
 
     /// Statements that make the value of `e` observable: one `out_*` per leaf.
@@ -1855,9 +1868,17 @@ impl Gen {
                 }
             }
             let body = if self.cur_kind == FnKind::FilterMap {
-                self.no_div += 1;
-                let r = self.ret_stmt(depth.min(3));
-                self.no_div -= 1;
+                // both sides are used at least once, so that both payload types are
+                // determined by the script: an early guarded verdict and a final one
+                let first = if self.rng.bool() { RetKind::Accept } else { RetKind::Reject };
+                let last = if first == RetKind::Accept { RetKind::Reject } else { RetKind::Accept };
+                let early = self.verdict_stmt(first, depth.min(3));
+                let c = self.expr(&Ty::Bool, 2, true);
+                stmts.push(Stmt::Expr(Expr::new(
+                    Ty::Unit,
+                    EK::If(Box::new(c), Block { stmts: vec![], tail: Some(Box::new(early)) }, None),
+                )));
+                let r = self.verdict_stmt(last, depth.min(3));
                 Block { stmts, tail: Some(Box::new(r)) }
             } else if sig.ret == Ty::Unit {
                 Block { stmts, tail: None }
